@@ -287,7 +287,7 @@ def build_value(d):
 
 
 # every kind of original error: the message must render and end the text
-N_MESSAGE = 26 + 5 * 4 * 3 + 1 + 5 + 5 + 5 + 5 + 4
+N_MESSAGE = 26 + 5 * 4 * 3 + 1 + 5 + 5 + 5 + 5 + 4 + 3
 
 
 def message_cases():
@@ -332,7 +332,7 @@ def message_cases():
         # F40: original errors whose class brings a __str__ of its own (KeyError, the OSError family)
         ('callable-keyerror', {'a': 1}, ('a', lambda t: {}['k'])),
         ('callable-oserror', {'a': 1}, ('a', lambda t: open('/nonexistent/zz/file'))),
-    ] + guard_cases() + note_cases() + depth_cases() + recovered_cases() + falsy_cases() + lazy_trace_cases()
+    ] + guard_cases() + note_cases() + depth_cases() + recovered_cases() + falsy_cases() + lazy_trace_cases() + list_pattern_cases()
 
 
 def _refuse_all(x):
@@ -354,6 +354,17 @@ def recovered_cases():
          leak + ["Spec: 'yy'"]),
         ('recovered:nested', {'a': 1}, Check(Check(Coalesce('zz', default_factory=int), validate=_accept), validate=_refuse_all), ['CheckError'], leak),
         ('recovered:control', {'a': 1}, Check(Coalesce('zz', default=0), validate=_refuse_all), ['CheckError'], leak),
+    ]
+
+
+def list_pattern_cases():
+    """F47: in a list pattern every item tries the alternatives in turn; the alternatives an EARLIER item did not match before it matched
+    another are not failures of the list and do not show when a later item fails"""
+    from glom import Match
+    return [
+        ('listpat:earlier-item', ['a', 2.0], Match([int, str]), ['Target: 2.0', 'Spec: int', 'Spec: str'], ["Target: 'a'"]),
+        ('listpat:three-items', [1, 'a', None, 'b'], Match([str, int]), ['Target: None'], ["Target: 1", "Target: 'a'"]),
+        ('listpat:set', {'a', 2.0} - {'a'} | {2.0}, Match({int, str}), ['Target: 2.0'], []),
     ]
 
 
